@@ -26,6 +26,14 @@ ASSUMPTIONS = ["reference predicates are written from class docstrings / user ma
                "File/Directory(exists=True) are skipped (file-system dependent); bytes(n) for huge n is skipped (allocation hazard)"]
 
 ROUTES = ["setattr", "trait_set", "trait_setq", "ctor"]
+# a fifth route, run for the configurations whose domain does not depend on the owning class or on a shadow trait:
+# the validated trait lives on a prototype object and the assignment goes through a PrototypedFrom attribute
+# ("assigned locally (validated by the prototype's trait)")
+PROTO = "proto"
+
+
+def proto_ok(spec):
+    return not any(L.mentions(spec, n) for n in ("Map", "PrefixMap", "This", "Legacy"))
 OWNER = C3.OWNER
 
 
@@ -88,8 +96,14 @@ def protocol_exceptions(v, acc=None):
 class Driver:
     def __init__(self, spec, route):
         self.spec, self.route = spec, route
-        self.cls = type("Owner", (T.HasTraits,), {"x": build(spec), "other": T.Int(5), "tag": T.Str("t")})
-        self.obj = self.cls()
+        if route == PROTO:
+            pcls = type("Proto", (T.HasTraits,), {"x": build(spec)})
+            self.cls = type("Owner", (T.HasTraits,), {"x": T.PrototypedFrom("p"), "p": T.Instance(pcls), "other": T.Int(5),
+                                                      "tag": T.Str("t")})
+            self.obj = self.cls(p=pcls())
+        else:
+            self.cls = type("Owner", (T.HasTraits,), {"x": build(spec), "other": T.Int(5), "tag": T.Str("t")})
+            self.obj = self.cls()
         self.obj.other = 7
         self.obj.tag = "u"
 
@@ -100,7 +114,7 @@ class Driver:
 
     def assign(self, v):
         o = self.obj
-        if self.route == "setattr":
+        if self.route in ("setattr", PROTO):
             o.x = v
         elif self.route == "trait_set":
             o.trait_set(x=v)
@@ -266,7 +280,7 @@ def full_grid():
 def grid_gen(tier, shard, nshards):
     n = 0
     for spec in full_grid():
-        for route in ROUTES:
+        for route in ROUTES + ([PROTO] if proto_ok(spec) else []):
             for order in ("fwd", "rev"):
                 if n % nshards == shard:
                     yield {"spec": spec, "route": route, "order": order}
@@ -331,7 +345,7 @@ def hashable_enc(e):
 @st.composite
 def random_case(draw):
     spec = draw(spec_strategy())
-    route = draw(st.sampled_from(ROUTES))
+    route = draw(st.sampled_from(ROUTES + ([PROTO] if proto_ok(spec) else [])))
     vals = draw(st.lists(value_for(spec), min_size=1, max_size=10))
     return {"spec": spec, "route": route, "vals": vals}
 
